@@ -129,13 +129,13 @@ theorem normalize_request (dflt : Option TaskT) (r : TaskT × KW) (rs : List (Ta
   simp only [normalize]
   rfl
 
-/-- HEADLINE (results).  The returned mapping has an entry for task `t` iff `t` was executed, and the
+/-- HEADLINE (results).  The returned mapping has an entry for task (dictionary key) `t` iff `t` was executed, and the
     entry is the return value of the LAST execution of `t`: `j` is stored iff the `j`-th executed call
     is a call of `t` and no later one is. -/
 theorem results_last (dd : Bool) (dflt : Option TaskT) (req : List (TaskT × KW)) (t j : Nat) :
     lookupKV t (execute dd dflt req).2 = some j ↔
-      (((execute dd dflt req).1)[j]?).map Occ.id = some t ∧
-      ∀ k, j < k → (((execute dd dflt req).1)[k]?).map Occ.id ≠ some t := by
+      (((execute dd dflt req).1)[j]?).map Occ.key = some t ∧
+      ∀ k, j < k → (((execute dd dflt req).1)[k]?).map Occ.key ≠ some t := by
   simp only [execute]
   rw [lookupKV_runResults]
   cases hl : lastIdxFrom t 0 (runLog dd dflt req) with
@@ -160,7 +160,7 @@ theorem results_last (dd : Bool) (dflt : Option TaskT) (req : List (TaskT × KW)
 
 /-- a task that was never executed has no entry -/
 theorem results_only_executed (dd : Bool) (dflt : Option TaskT) (req : List (TaskT × KW)) (t : Nat) :
-    lookupKV t (execute dd dflt req).2 = none ↔ ∀ o ∈ (execute dd dflt req).1, o.id ≠ t := by
+    lookupKV t (execute dd dflt req).2 = none ↔ ∀ o ∈ (execute dd dflt req).1, o.key ≠ t := by
   simp only [execute]
   rw [lookupKV_runResults]
   cases hl : lastIdxFrom t 0 (runLog dd dflt req) with
@@ -210,38 +210,47 @@ theorem effective_args_dedupe_partial (sig : Nat → List Param) (l : List Occ)
     are equal, both run. -/
 theorem effective_args_dedupe_counterexample :
     let sig : Nat → List Param := fun _ => [⟨['x'], some (.int 1)⟩]
-    let l : List Occ := [⟨0, 0, ⟨[], [(['x'], .int 1)]⟩⟩, ⟨0, 0, ⟨[], []⟩⟩]
-    dedupe l = l ∧ dedupeBy (effEq sig) l = [⟨0, 0, ⟨[], [(['x'], .int 1)]⟩⟩] := by decide
+    let l : List Occ := [⟨0, 0, 0, ⟨[], [(['x'], .int 1)]⟩⟩, ⟨0, 0, 0, ⟨[], []⟩⟩]
+    dedupe l = l ∧ dedupeBy (effEq sig) l = [⟨0, 0, 0, ⟨[], [(['x'], .int 1)]⟩⟩] := by decide
 
 /-- two different tasks that `Task.__eq__` cannot tell apart (same name, same code object — e.g. made
     by one factory function and bound in two sub-collections): the second is skipped. -/
 theorem task_identity_dedupe_counterexample :
-    let l : List Occ := [⟨0, 7, noArgs⟩, ⟨1, 7, noArgs⟩]
-    dedupe l = [⟨0, 7, noArgs⟩] ∧ dedupeBy (effEq (fun _ => [])) l = l := by decide
+    let l : List Occ := [⟨0, 0, 7, noArgs⟩, ⟨1, 1, 7, noArgs⟩]
+    dedupe l = [⟨0, 0, 7, noArgs⟩] ∧ dedupeBy (effEq (fun _ => [])) l = l := by decide
 
 /-! ### non-vacuity -/
 
 /-- `build` (id 2) has pre `[setup, call(clean, x=1)]` and post `[notify]`; `setup` has post `[notify]` -/
-def exNotify : TaskT := .mk 0 0 [] []
-def exSetup : TaskT := .mk 1 1 [] [(exNotify, noArgs)]
-def exClean : TaskT := .mk 3 3 [] []
-def exBuild : TaskT := .mk 2 2 [(exSetup, noArgs), (exClean, ⟨[], [(['x'], .int 1)]⟩)] [(exNotify, noArgs)]
+def exNotify : TaskT := .mk 0 0 0 [] []
+def exSetup : TaskT := .mk 1 1 1 [] [(exNotify, noArgs)]
+def exClean : TaskT := .mk 3 3 3 [] []
+def exBuild : TaskT := .mk 2 2 2 [(exSetup, noArgs), (exClean, ⟨[], [(['x'], .int 1)]⟩)] [(exNotify, noArgs)]
 
 example : (execute false none [(exBuild, []), (exSetup, [])]).1.map Occ.id = [1, 0, 3, 2, 0, 1, 0] := by decide
 example : (execute true none [(exBuild, []), (exSetup, [])]).1.map Occ.id = [1, 0, 3, 2] := by decide
 example : (execute true none [(exBuild, []), (exSetup, [])]).2 = [(1, 0), (0, 1), (3, 2), (2, 3)] := by decide
 example : (execute false none [(exBuild, []), (exSetup, [])]).2 = [(1, 5), (0, 6), (3, 2), (2, 3)] := by decide
 example : (execute true (some exSetup) []).1.map Occ.id = [1, 0] := by decide
+/-- two `Task` objects wrapping ONE body function under one name (same `key`, same `cls`) with different
+    pre-tasks: each occurrence is surrounded by its OWN pre-tasks (dedupe off: everything runs; dedupe on:
+    the second `build` is taken for the first - known finding - but its own pre-task still runs), and the
+    returned mapping has a single entry for the shared key -/
+def exWebBuild : TaskT := .mk 10 10 10 [(.mk 11 11 11 [] [], noArgs)] []
+def exApiBuild : TaskT := .mk 20 10 10 [(.mk 21 21 21 [] [], noArgs)] []
+example : (execute false none [(exWebBuild, []), (exApiBuild, [])]).1.map Occ.id = [11, 10, 21, 20] := by decide
+example : (execute true none [(exWebBuild, []), (exApiBuild, [])]).1.map Occ.id = [11, 10, 21] := by decide
+example : (execute false none [(exWebBuild, []), (exApiBuild, [])]).2 = [(11, 0), (10, 3), (21, 2)] := by decide
 /-- a nested occurrence (`notify` below `setup` below `build`) satisfies `Sub` -/
 example : Sub (exNotify, noArgs) [(exBuild, noArgs)] :=
   Sub.inPre (d := (exBuild, noArgs)) (by simp) (Sub.inPost (d := (exSetup, noArgs)) (by simp [exBuild, TaskT.pre]) (Sub.here (by simp [exSetup, TaskT.post])))
 /-- kwargs are compared like dicts: the order of the keywords does not matter, the values do -/
-example : callEq ⟨0, 0, ⟨[], [(['x'], .int 1), (['y'], .int 2)]⟩⟩ ⟨0, 0, ⟨[], [(['y'], .int 2), (['x'], .int 1)]⟩⟩ = true := by decide
-example : callEq ⟨0, 0, ⟨[], [(['x'], .int 1)]⟩⟩ ⟨0, 0, ⟨[], [(['x'], .int 2)]⟩⟩ = false := by decide
+example : callEq ⟨0, 0, 0, ⟨[], [(['x'], .int 1), (['y'], .int 2)]⟩⟩ ⟨0, 0, 0, ⟨[], [(['y'], .int 2), (['x'], .int 1)]⟩⟩ = true := by decide
+example : callEq ⟨0, 0, 0, ⟨[], [(['x'], .int 1)]⟩⟩ ⟨0, 0, 0, ⟨[], [(['x'], .int 2)]⟩⟩ = false := by decide
 /-- the hypotheses of `effective_args_dedupe_partial` are satisfiable by a list with a real duplicate -/
 example :
     let sig : Nat → List Param := fun _ => [⟨['x'], some (.int 1)⟩]
-    let l : List Occ := [⟨0, 0, ⟨[], [(['x'], .int 1)]⟩⟩, ⟨0, 0, ⟨[], [(['x'], .int 2)]⟩⟩, ⟨0, 0, ⟨[], [(['x'], .int 1)]⟩⟩]
+    let l : List Occ := [⟨0, 0, 0, ⟨[], [(['x'], .int 1)]⟩⟩, ⟨0, 0, 0, ⟨[], [(['x'], .int 2)]⟩⟩, ⟨0, 0, 0, ⟨[], [(['x'], .int 1)]⟩⟩]
     (∀ c ∈ l, ∀ d ∈ l, c.id = d.id → sameSpelling c d = true) ∧ (dedupe l).length = 2 ∧
     dedupe l = dedupeBy (effEq sig) l := by decide
 example : WellCalled [⟨['x'], some (.int 1)⟩] ⟨[], [(['x'], .int 1)]⟩ :=
